@@ -77,7 +77,10 @@ ReplG2 == <<91, 36, 49, 124, 36, 50, 93>>                              \* "[$1|$
 NcgAB == [k |-> "ncg", r |-> [k |-> "seq", xs |-> <<Chr(97), Chr(98)>>]]                          \* (?:ab)
 NcgABorBA == [k |-> "ncg", r |-> [k |-> "alt", xs |-> <<[k |-> "seq", xs |-> <<Chr(97), Chr(98)>>],
                                                       [k |-> "seq", xs |-> <<Chr(98), Chr(97)>>]>>]]          \* (?:ab|ba)
-LvOptFix == {BolL, Chr(98), NcgAB, NcgABorBA}         \* multi-character fixed-length bodies, anchors
+NcgABorB == [k |-> "ncg", r |-> [k |-> "alt", xs |-> <<[k |-> "seq", xs |-> <<Chr(97), Chr(98)>>], Chr(98)>>]]   \* (?:ab|b)
+LvOptFix == {BolL, Chr(98), NcgAB, NcgABorBA, NcgABorB}
+LvLawFix == {Chr(98), NcgAB, NcgABorB}
+QLawFix == {Q(2, 2, FALSE, "n"), Q(2, -1, FALSE, "n"), Q(1, 2, FALSE, "n"), QStar}         \* multi-character fixed-length bodies, anchors
 QFix == {Q(2, 2, FALSE, "n"), Q(1, 2, FALSE, "n"), Q(2, -1, FALSE, "n"), Q(0, 2, FALSE, "n"), QStar, QPlusL}
 LvAstral == {Chr(66560), Chr(769), Chr(97), Dot, Cls(FALSE, <<IC(66560), IC(97)>>)}
 LvLoop == {Chr(97), Chr(98), BolL, EolL, Bref(1)}
